@@ -300,27 +300,11 @@ def subs_of(m, s):
     return [t for t in all_static(m) if any(b is s for b in t.bases)]
 
 
-def has_items_above(s):
-    """an ItemSpace of a static space that properly contains s holds a live dynamic copy of s"""
-    rel = [s.name]
-    p = s.parent
-    while not isinstance(p, Model):
-        for root in p.itemspaces.values():
-            d = root
-            for nm in rel:
-                d = d.spaces.get(nm)
-                if d is None:
-                    break
-            else:
-                return True
-        rel.insert(0, p.name)
-        p = p.parent
-    return False
-
-
 def deletion_triggers(m, kind, target, extra=None):
     """names of the known defects the deletion would trigger (evaluated before the operation)
-    kind: 'cells' (target = cells), 'space' (target = space), 'bases' (target = space losing bases)"""
+    kind: 'cells' (target = cells: none known), 'space' (target = space), 'bases' (target = space losing bases).
+    (The lazy-namespace case 'stale_ns' - an ItemSpace holding a copy of a re-inherited space - was dropped:
+    since a66156d on_inherit discards those ItemSpaces unconditionally, as the model does.)"""
     trig = set()
     if kind == "space":
         tree = static_tree(target)
@@ -328,14 +312,6 @@ def deletion_triggers(m, kind, target, extra=None):
             trig.add("C13a")
         if any(any(t is u for u in tree) for t in subs_of(m, target)):
             trig.add("C13e")
-        affected = []
-        for t in tree:
-            affected += subs_of(m, t)
-    elif kind == "cells":
-        sp = target.parent
-        affected = [sp] + subs_of(m, sp)
-    else:
-        affected = [target] + subs_of(m, target)
     if kind in ("space", "bases"):
         # D3: the re-derivation after remove_bases / del space walks the old graph breadth first; a space that
         # inherits from the edited one along two routes can be visited before one of its bases (IndexError)
@@ -457,12 +433,6 @@ def gen_op(rng, m, H, ftab, profile, filtered, avoid):
                 db = [i for i in dead if isinstance(H[i], UserSpace)]
                 if db:
                     hb = [rng.choice(db)]
-            if avoid and is_alive(H[h]):
-                trig = deletion_triggers(m, "addbases", H[h])
-                if trig:
-                    for t in trig:
-                        filtered[t] = filtered.get(t, 0) + 1
-                    return None
             return ["AddBases", h, hb]
         if not is_alive(H[h]):
             return ["RemoveBases", h, [pick(uspaces) or 0]]
